@@ -203,7 +203,8 @@ impl PathParser {
     }
 
     fn process_instruction(&mut self) -> Result<()> {
-        if self.command.is_none() || self.tokens.at_command()? {
+        let explicit_command = self.command.is_none() || self.tokens.at_command()?;
+        if explicit_command {
             // "The command letter can be eliminated on subsequent commands if the same
             // command is used multiple times in a row (e.g., you can drop the second
             // "L" in "M 100 200 L 200 100 L -100 -200" and use "M 100 200 L 200 100
@@ -212,15 +213,23 @@ impl PathParser {
         }
 
         match self.command.expect("Command should be already set") {
-            'M' | 'L' | 'T' => {
+            c @ ('M' | 'L' | 'T') => {
                 // "(x y)+"
                 let xy = self.tokens.read_coord()?;
                 self.update_position(xy);
+                if c == 'M' && explicit_command {
+                    // a moveto starts a new subpath, which is where closepath returns to
+                    // (further coordinate pairs after it are implicit lineto commands)
+                    self.start_pos = Some(xy);
+                }
             }
-            'm' | 'l' | 't' => {
+            c @ ('m' | 'l' | 't') => {
                 let (dx, dy) = self.tokens.read_coord()?;
                 let (cpx, cpy) = self.position.unwrap_or((0., 0.));
                 self.update_position((cpx + dx, cpy + dy));
+                if c == 'm' && explicit_command {
+                    self.start_pos = Some((cpx + dx, cpy + dy));
+                }
             }
             'H' => {
                 let new_x = self.tokens.read_number()?;
